@@ -1,7 +1,7 @@
 """C12 edge collapse: the structural clauses (neighbour-table agreement, arm agreement, output provenance)."""
 import re
 
-from gsa import cmprules, facts, ir
+from gsa import cmprules, facts, ir, paths
 from gsa.facts import Unit, rel, AnalysisBroken
 from gsa.report import Check
 
@@ -13,11 +13,34 @@ H = 'src/Collapse/include/gudhi/Flag_complex_edge_collapser.h'
 INF = 'inf'
 
 
+SENTINELS = {}      # nullary helpers that return "never" / "since ever" in every arm (filled from the class on each run)
+
+
 def norm_val(t):
     t = t.replace('std::', '')
     if 'infinity()' in t:
         return '-inf' if t.strip().startswith('-') else 'inf'
+    if t.strip() in SENTINELS:
+        return SENTINELS[t.strip()]
     return t
+
+
+def find_sentinels(F):
+    """`never()`-like helpers: no parameter, every return is +-infinity() or max() / lowest() of the filtration type"""
+    SENTINELS.clear()
+    for f in F.functions:
+        if not f['file'].endswith('Flag_complex_edge_collapser.h') or f.get('params') or f.get('body') is None:
+            continue
+        vals = set()
+        for x in ir.walk(f['body']):
+            if x.get('k') == 'ReturnStmt' and x.get('value') is not None:
+                t = ir.show(x['value']).replace('std::', '').replace(' ', '')
+                if t.endswith('infinity()') or t.endswith('max()') or t.endswith('lowest()'):
+                    vals.add('-inf' if (t.startswith('-') or t.endswith('lowest()')) else 'inf')
+                else:
+                    vals.add('?')
+        if len(vals) == 1 and '?' not in vals:
+            SENTINELS[f['name'] + '()'] = vals.pop()
 
 
 def table_writes(fn):
@@ -61,6 +84,7 @@ def run(tier, replay=None):
                 'the persistence diagram (the domination theorem) is not decided.',
                 'sibling-arm / dual-table agreement over the clang AST (E2, E7b), provenance (E10), comparator (E9)')
     F = facts.extract(UNITS)
+    find_sentinels(F)
 
     def fn(unit, name):
         fs = [f for f in F.funcs(name, unit=unit) if f['file'].endswith('Flag_complex_edge_collapser.h')]
@@ -118,6 +142,96 @@ def run(tier, replay=None):
         chk.ob('E7b-arms', '%s: dense and sparse arms test the edge time against the same bound with the same '
                'strictness' % name, '%s:%d' % (H, fn('dense', name)['line']), ok,
                'dense tests %s, sparse tests %s' % (d, s), key='E7b|%s|bound' % name)
+
+    # ---- T2b a domination answer is about a time: "the neighbourhood of e at time f is inside that of c"
+    for unit in ('sparse', 'dense'):
+        f = fn(unit, 'is_dominated_by')
+        ps_ = [p_['n'] for p_ in f.get('params', [])]
+        if len(ps_) != 3:
+            raise AnalysisBroken('C12: is_dominated_by no longer takes (neighbours, candidate, time)')
+        ngb, fpar = ps_[0], ps_[2]
+
+        def cl(x):
+            if x.get('k') == 'ReturnStmt' and x.get('value') is not None and ir.show(x['value']) == 'true':
+                return ['YES']
+            return []
+        pths = paths.enumerate_paths(f, cl, loop_mode='01', keep_conds=True, cap=20000)
+        bad = None
+        nyes = 0
+        for p_ in pths:
+            if 'YES' not in p_.tags():
+                continue
+            nyes += 1
+            timed = vacuous = False
+            for c, pol, _ in p_.conds:
+                if isinstance(c, tuple):
+                    continue
+                if c.get('k') == 'CXXForRangeStmt':
+                    if not pol and ir.show(c.get('range')) == ngb:
+                        vacuous = True                     # no neighbour to look at
+                    continue
+                t = ir.show(c)
+                if re.search(r'[<>]=?\s*%s\b' % re.escape(fpar), t) or re.search(r'\b%s\s*[<>]' % re.escape(fpar), t):
+                    timed = True
+                if re.search(r'\b%s\b' % re.escape(ngb), t) and ('empty()' in t or 'size()' in t) :
+                    vacuous = True
+            if not (timed or vacuous) and bad is None:
+                bad = p_
+        if nyes == 0:
+            raise AnalysisBroken('C12: is_dominated_by (%s) never answers true' % unit)
+        chk.ob('E10-timed-domination', 'is_dominated_by (%s): every path answering "dominated" has compared a stored '
+               'time with the bound `%s` (or had no neighbour to look at) - %d paths' % (unit, fpar, nyes),
+               '%s:%d' % (H, f['line']), bad is None, '' if bad is None else 'a path returns true after the decisions '
+               '[%s] without comparing any neighbour time with `%s`: adjacency alone is accepted, although an edge '
+               'already kept can join the candidate later than the current time' % ('; '.join(
+                   ('' if pol else '!') + ir.show(c)[:50] for c, pol, _ in bad.conds if not isinstance(c, tuple))[:200],
+                   fpar), key='E10|is_dominated_by|%s|timed' % unit)
+
+    # ---- T2c sentinels of the two template types
+    n_cmp = n_inf = 0
+    for f in [g for g in F.functions if g['file'].endswith('Flag_complex_edge_collapser.h') and
+              g.get('body') is not None and g.get('unit') in (None, 'sparse', 'dense')]:
+        if f.get('unit') not in (None, 'dense') and any(
+                h['name'] == f['name'] and h.get('unit') == 'dense' and h['line'] == f['line'] for h in F.functions):
+            continue                                      # analysed in the dense configuration (a superset)
+        par_map = ir.parents(f['body'])
+        vertex_vars = {x['n'] for x in ir.walk(f['body']) if x.get('k') == 'VarDecl' and x.get('t') == 'Vertex'}
+        vertex_vars |= {p_['n'] for p_ in f.get('params', []) if p_.get('t') == 'Vertex'}
+        for x in ir.walk(f['body']):
+            if x.get('k') in ('BinaryOperator', 'CXXOperatorCallExpr') and x.get('op') in ('==', '!=', '<', '>', '<=',
+                                                                                        '>='):
+                ab = x['c'] if x['k'] == 'BinaryOperator' else ir.call_args(x)
+                if len(ab) != 2:
+                    continue
+                for l, r in ((ab[0], ab[1]), (ab[1], ab[0])):
+                    l0, r0 = ir.skipcasts(l), ir.skipcasts(r)
+                    if l0 is not None and l0.get('k') == 'DeclRefExpr' and l0.get('n') in vertex_vars:
+                        n_cmp += 1
+                        neg = r0 is not None and r0.get('k') == 'UnaryOperator' and r0.get('op') == '-' and \
+                            (ir.skipcasts(r0['c'][0]) or {}).get('k') == 'IntegerLiteral'
+                        if neg:
+                            chk.ob('E4-sentinel', '%s: the vertex `%s` is not compared with a bare negative literal' %
+                                   (f['name'], l0['n']), '%s:%s' % (H, x.get('l')), False,
+                                   '`%s`: the literal is an int; a Vertex of a narrow unsigned type holding the '
+                                   'sentinel is promoted to 65535 (255) and never equals it' % ir.show(x)[:60],
+                                   key='E4|%s|vertex-sentinel' % f['name'])
+            if ir.is_call(x) and ir.call_name(x) == 'infinity' and not ir.call_args(x):
+                n_inf += 1
+                guarded = False
+                node = x
+                while id(node) in par_map:
+                    pn = par_map[id(node)]
+                    if pn.get('k') == 'IfStmt' and node is pn.get('then') and 'has_infinity' in ir.show(pn.get('cond')):
+                        guarded = True
+                    node = pn
+                chk.ob('E4-sentinel', '%s: infinity() of the filtration type is used only where the type has one' %
+                       f['name'], '%s:%s' % (H, x.get('l')), guarded, '' if guarded else
+                       'numeric_limits<Filtration_value>::infinity() is 0 for an integer type: an absent neighbour '
+                       'reads as present since time 0', key='E4|%s|infinity' % f['name'])
+    chk.ob('E4-sentinel', 'no vertex is compared with a bare negative literal (%d comparisons of vertices seen)' % n_cmp,
+           H, True, '', key='E4|vertex-sentinel|inventory', nontrivial=False)
+    chk.expect_count('E4-sentinel', 'comparisons involving a Vertex variable', n_cmp, 4)
+    chk.expect_count('E4-sentinel', 'uses of infinity() of the filtration type', n_inf, 2)
 
     # ---- T3 output provenance and table/output agreement in process_edges
     for unit in ('sparse', 'dense'):
